@@ -1,8 +1,9 @@
-\* C04 thorough (replay 1): 2 threads, <= 2 spans (verdict free), <= 3 frames, 1 task, nesting <= 3, all forms, incoming ids, async-fn spans; every transition replayed.
+\* C04 thorough (replay 1): 2 threads, <= 2 spans (verdict free), <= 3 frames, 1 task, nesting <= 3, all forms, incoming ids as a trace id alone / a span id alone, async-fn spans; every transition replayed.
 SPECIFICATION SSpec
 CONSTANTS
     NThreads = 2
     StoreOf <- MC_Store1
+    InstKind <- MC_Kind1
     NKeys = 3
     PropChoices <- MC_None
     Kinds <- MC_None
@@ -12,7 +13,7 @@ CONSTANTS
     MaxDepth = 3
     Panics = FALSE
     MaxSpans = 2
-    WithIncoming = TRUE
+    IncomingKinds <- MC_IncPartial
     WithLazy = TRUE
     Emit = TRUE
 VIEW sview
